@@ -3,7 +3,9 @@ package props
 import (
 	"crypto/rsa"
 	"crypto/tls"
+	"crypto/x509"
 	"fmt"
+	"strings"
 	"time"
 
 	saml2 "github.com/russellhaering/gosaml2"
@@ -63,6 +65,19 @@ func runC07(c *mon.Ctx) {
 			spec.Recipient = sim.Wide(sim.K("spenc2"), base)
 		case "bad-base64":
 			spec.RecipRaw = sim.S("!!!not base64!!!")
+		}
+		if (rc == "another" || rc == "bad-base64") && r.IntN(3) == 0 {
+			// two EncryptedKey elements: the one the library selects (embedded, with a CipherValue) names the foreign
+			// recipient, a second one (detached sibling) is addressed to the SP. The selected key still names someone else.
+			spec.Detached = false
+			spec.Extra = &sim.EncSpec{KeyAlg: pick(r, keyAlgs), To: w.SPEnc}
+			if r.IntN(2) == 0 {
+				spec.Extra.Recipient = w.SPEnc
+			}
+			if r.IntN(2) == 0 {
+				spec.To = sim.Wide(sim.K("spenc2"), base) // and is really wrapped for that other party
+			}
+			rc += "+second-key-for-sp"
 		}
 		genuine := sim.GenuineAssertion(w.Env, fmt.Sprintf("_g%08x", r.Uint32()))
 		genuine.Sig = sim.DefaultSig(signer.Key, signer)
@@ -159,7 +174,7 @@ func runC07(c *mon.Ctx) {
 			why := "plaintext " + pk
 			if place != "direct" {
 				why = "placement " + place
-			} else if rc == "another" || rc == "bad-base64" {
+			} else if strings.HasPrefix(rc, "another") || strings.HasPrefix(rc, "bad-base64") {
 				why = "recipient " + rc
 			}
 			who := ""
@@ -217,6 +232,20 @@ func runC07(c *mon.Ctx) {
 		sp, _, _ := NewSP(clk.t, idp)
 		sp.ValidateEncryptionCert = opt
 		useSetter := ck == "valid" && r.IntN(3) == 0
+		// tls.Certificate.Leaf is a convenience copy some callers fill in: it may be absent, in step with the
+		// certificate list, or stale (another certificate of the same key whose validity says the opposite)
+		leaf := func() *x509.Certificate {
+			switch r.IntN(3) {
+			case 0:
+				return nil
+			case 1:
+				return spCert.X509
+			}
+			if ck == "valid" && clk.inside {
+				return sim.Mint(spCert.Key, nb.AddDate(-3, 0, 0), nb.AddDate(-2, 0, 0), 24).X509
+			}
+			return sim.Mint(spCert.Key, nb.AddDate(-3, 0, 0), na.AddDate(3, 0, 0), 25).X509
+		}
 		switch ck {
 		case "valid":
 			if useSetter {
@@ -224,14 +253,14 @@ func runC07(c *mon.Ctx) {
 			} else if r.IntN(2) == 0 {
 				sp.SPKeyStore = &RSAKeyStore{C: spCert}
 			} else {
-				sp.SPKeyStore = dsig.TLSCertKeyStore(tls.Certificate{Certificate: [][]byte{spCert.DER}, PrivateKey: spCert.Key.RSA()})
+				sp.SPKeyStore = dsig.TLSCertKeyStore(tls.Certificate{Certificate: [][]byte{spCert.DER}, PrivateKey: spCert.Key.RSA(), Leaf: leaf()})
 			}
 		case "empty-list":
-			sp.SPKeyStore = dsig.TLSCertKeyStore(tls.Certificate{PrivateKey: spCert.Key.RSA()})
+			sp.SPKeyStore = dsig.TLSCertKeyStore(tls.Certificate{PrivateKey: spCert.Key.RSA(), Leaf: leaf()})
 		case "empty-bytes":
-			sp.SPKeyStore = dsig.TLSCertKeyStore(tls.Certificate{Certificate: [][]byte{{}}, PrivateKey: spCert.Key.RSA()})
+			sp.SPKeyStore = dsig.TLSCertKeyStore(tls.Certificate{Certificate: [][]byte{{}}, PrivateKey: spCert.Key.RSA(), Leaf: leaf()})
 		case "junk":
-			sp.SPKeyStore = dsig.TLSCertKeyStore(tls.Certificate{Certificate: [][]byte{[]byte("this is not DER")}, PrivateKey: spCert.Key.RSA()})
+			sp.SPKeyStore = dsig.TLSCertKeyStore(tls.Certificate{Certificate: [][]byte{[]byte("this is not DER")}, PrivateKey: spCert.Key.RSA(), Leaf: leaf()})
 		case "rotating-store":
 			// the store answers the first call with the key the message is encrypted to but an unusable certificate,
 			// later calls with a fine pair: the certificate that belongs to the decrypting key is the one that counts
